@@ -119,6 +119,17 @@ def gen_plan(rng, tier, idx, opts):
         elif r < 0.78:
             ops.append({"op": "clear"})
             first = True
+        elif r < 0.80 and kind != "closed" and init != "closed_form":
+            n2 = max(max(Ns) + 1, rng.randint(2, 5))
+            if rng.random() < 0.5:
+                nr2, nt2 = [n2] * K, [n2] * K
+            else:
+                nr2 = [max(Ns[k] + 1, rng.randint(2, 5)) for k in range(K)]
+                nt2 = [max(Ns[k] + 1, rng.randint(2, 5)) for k in range(K)]
+            ops.append({"op": "rechannel", "seed": s(), "Nr": nr2, "Nt": nt2})     # the channel object gets other dimensions
+            if init == "fix":
+                ops.append({"op": "set_precoders", "how": "F", "seed": s(), "P": None})
+            ops.append({"op": "solve", "P": gen_P(rng, K), "monitor": rng.random() < 0.6})
         elif r < 0.81:
             ops.append({"op": "noise", "v": rng.choice([None, 1e-3, 0.1, 1.0]) if kind not in ("mmse", "maxsinr") else rng.choice([1e-3, 0.1, 1.0])})
         else:
@@ -276,10 +287,9 @@ def execute(plan):
                             costs.append(float(np.real(_s.get_cost())))
                         solver._step = wrapped
                     try:
-                        if kind == "closed":
-                            solver.solve(np.array(Ns), P)
-                        else:
-                            solver.solve(np.array(Ns), P)
+                        ns_arg = int(Ns[0]) if (len(set(Ns)) == 1 and step % 3 == 0) else np.array(Ns)      # Ns as an int when all equal
+                        p_arg = list(op["P"]) if (isinstance(op["P"], list) and step % 2 == 0) else P             # P as a plain list
+                        solver.solve(ns_arg, p_arg)
                     finally:
                         if mon:
                             del solver._step
@@ -364,6 +374,14 @@ def execute(plan):
                                 c1, oldP[0], m["P"][0], c0, want), rel="cost_scaling")
                     m["last_setter"] = "P"
                     m["F_from_solve"] = False
+                elif o == "rechannel":
+                    Nr, Nt = list(op["Nr"]), list(op["Nt"])
+                    ch.set_channel_seed(op["seed"])
+                    ch.randomize(np.array(Nr), np.array(Nt), K)
+                    m["F_def"] = m["W_def"] = False          # the old solution belongs to the old channel
+                    m["aligned"] = False
+                    m["cost_ok"] = False
+                    bump(res["probes"], "channel_redimensioned_between_solves")
                 elif o == "noise":
                     ch.noise_var = op["v"]
                     cur["noise"] = op["v"]
